@@ -65,6 +65,9 @@ class Config:
     max_paths = 20000
     use_cvc5 = True
     keep_smt2 = 3  # how many sample obligations keep their SMT-LIB text
+    qf_branching = False  # opt-in per contract (`qf_branching = True`): decide branch feasibility on the quantifier-free
+    # part of the path condition only.  Sound (a branch is dropped only when refuted); a branch that only the quantified
+    # facts refute is explored, and its obligations are then checked against the full path condition as usual.
 
 
 def cvc5_check(smt2: str, timeout_s: int = 20) -> str:
@@ -142,6 +145,8 @@ class State:
         self.pos = 0
         self.pc: list = []
         self.solver = z3.Solver()
+        self.qf_solver = z3.Solver()  # the quantifier-free part of the path condition
+        self.n_quantified = 0
         self.counter = 0
         self.trace: list = []  # ghost event trace
         self.ghost: dict = {}
@@ -150,7 +155,6 @@ class State:
         self.axiom_hooks = []
         self.capture = None  # when a list: assumptions are collected (inside a quantifier body) instead of asserted
         self.has_quant = False  # a quantified formula is among the assumptions: sat-direction checks tend to time out
-        self.qf_solver = z3.Solver()  # the quantifier-free assumptions only (a weaker context: `unsat` here is `unsat` there)
 
     # ---- fresh symbols
     def fresh_name(self, hint):
@@ -184,10 +188,24 @@ class State:
             return
         if _has_quantifier(f):
             self.has_quant = True
+            self.n_quantified += 1
         else:
             self.qf_solver.add(f)
         self.pc.append(f)
         self.solver.add(f)
+
+    def qf_refutes(self, extra, timeout_ms=500):
+        """Is `extra` inconsistent with the quantifier-free part of the path condition?  (Sound and fast, not
+        complete: used where a `no` merely costs precision, e.g. the empty-range shortcut of `forall`.)"""
+        t0 = time.time()
+        self.qf_solver.set("timeout", timeout_ms)
+        self.qf_solver.push()
+        self.qf_solver.add(extra)
+        r = self.qf_solver.check()
+        self.qf_solver.pop()
+        self.ex.solver_time += time.time() - t0
+        self.ex.queries += 1
+        return r == z3.unsat
 
     def _check(self, extra, timeout_ms):
         t0 = time.time()
@@ -232,6 +250,10 @@ class State:
                 if z3.is_true(c):
                     feas.append(i)
                     continue
+                if self.cfg.qf_branching:
+                    if not self.qf_refutes(c, self.cfg.branch_timeout_ms):
+                        feas.append(i)
+                    continue
                 # feasibility is an optimisation (an infeasible path only costs time): with quantified assumptions
                 # a `sat` answer is rarely reached, so do not wait long for it
                 r, _ = self._check(c, min(self.cfg.branch_timeout_ms, 250) if self.has_quant else self.cfg.branch_timeout_ms)
@@ -261,7 +283,10 @@ class State:
         return self.choose([z3.BoolVal(True)] * n)
 
     def force(self, v):
-        while isinstance(v, SOpt):
+        while isinstance(v, (SOpt, V.SCases)):
+            if isinstance(v, V.SCases):
+                v = v.cases[self.choose([c for c, _ in v.cases])][1]
+                continue
             if self.branch(v.isnone):
                 return None
             v = v.val
@@ -292,7 +317,12 @@ class State:
             if z3.is_true(formula):
                 ob.status = "discharged"
             else:
-                r, model = self._check(z3.Not(formula), self.cfg.oblig_timeout_ms)
+                # first against the quantifier-free part of the path condition alone (fewer assumptions: sound;
+                # quantified facts that the goal does not need otherwise send the solver astray), then in full
+                if self.n_quantified and self.qf_refutes(z3.Not(formula), min(2000, self.cfg.oblig_timeout_ms)):
+                    r, model = z3.unsat, None
+                else:
+                    r, model = self._check(z3.Not(formula), self.cfg.oblig_timeout_ms)
                 if r == z3.unsat:
                     ob.status = "discharged"
                 elif r == z3.sat:
